@@ -22,6 +22,10 @@ func init() {
 		Technique: "who-may-call and argument provenance over the call graph, phi-refined dominance facts for the verified-setter obligation, all-elements loop rule with rolling variable, lock-held analysis",
 		Trusted:   "go/types+go/ssa; C01/C02 for Verify, C09 for what the Exchange verifies under WithTrustedHead, C15 for bifurcation",
 		Run:       runC03,
+		Imports: []Import{
+			{From: "C07.e", Match: "ranges-strictly-increasing", As: "C03.g", Why: "a duplicate pending range can never be applied and freezes the subjective head every incoming header is verified against"},
+			{From: "C01.a", As: "C03.h", Why: "the acceptance test of the syncer is header.Verify: a header at or below the subjective head must be refused as known before it can replace a stored one"},
+		},
 	})
 }
 
